@@ -42,7 +42,7 @@ theorem dset_new (d : List (Str × Str)) (k v : Str) (h : k ∉ d.map Prod.fst) 
 /-- which recorded hashes survive: the path is versioned and the hash is the file's current one -/
 def mmKeep (tree : List TFile) (ph : Str × Str) : Bool :=
   match tree.find? fun f => f.path == ph.1 with
-  | some f => decide (ph.2 = f.sha)
+  | some f => decide (some ph.2 = f.sha)
   | none => false
 
 def mmStanzas (tree : List TFile) (hashes : List (Str × Str)) : List Stanza :=
@@ -79,14 +79,13 @@ theorem mmLoop_spec (tree : List TFile) (hid : (tree.map (·.fileId)).Nodup)
         simp [sgetFirst, tFileId, tHash]
       rw [h1, mmLoop]
       simp only [hg1, hg2, hid2]
-      by_cases hs : h = f.sha
+      by_cases hs : some h = f.sha
       · have h2 : mmKeep tree (p, h) = true := by simp [mmKeep, hf, hs]
         have hnew : f.path ∉ acc.map Prod.fst := by rw [hpath]; exact hacc (p, h) (by simp)
         simp only [hs, if_true]
-        rw [dset_new acc f.path f.sha hnew, List.filter_cons]
-        rw [hs] at h2
+        rw [dset_new acc f.path h hnew, List.filter_cons]
         simp only [h2, if_true]
-        rw [ih hp.2 (acc ++ [(f.path, f.sha)])]
+        rw [ih hp.2 (acc ++ [(f.path, h)])]
         · simp [hpath]
         · intro q hq
           simp only [List.map_append, List.map_cons, List.map_nil, List.mem_append, List.mem_cons,
